@@ -155,7 +155,10 @@ func verifFrontierState(k, bufSize, entrySize int) *verifFrontier {
 		f.doneUpto = append(f.doneUpto, t)
 		return nil
 	})
-	verifrt.Stub("(*embedded/watchers.WatchersHub).Status", func(w *watchers.WatchersHub) (uint64, int, error) { return f.c, 0, nil })
+	// what the durable-precommit hub reports: anything between the committed and the precommitted frontier
+	durable := verifrt.U64("durablePrecommitted")
+	verifrt.Assume(durable >= f.c && durable <= f.p)
+	verifrt.Stub("(*embedded/watchers.WatchersHub).Status", func(w *watchers.WatchersHub) (uint64, int, error) { return durable, 0, nil })
 	verifrt.Stub("(*embedded/watchers.WatchersHub).RecedeTo", func(w *watchers.WatchersHub, t uint64) error { return nil })
 	verifrt.Stub("(*embedded/ahtree.AHtree).ResetSize", func(t *ahtree.AHtree, n uint64) error {
 		f.ahtOps = append(f.ahtOps, "reset")
@@ -269,7 +272,7 @@ func VerifH_AllowCommitUptoStep() {
 	verifrt.Assert(st.commitAllowedUpToTxID >= old, "allowance never decreases")
 	verifrt.Assert(st.commitAllowedUpToTxID <= f.p, "allowance never beyond the precommit frontier")
 	verifrt.Assert(st.commitAllowedUpToTxID <= x || st.commitAllowedUpToTxID == old, "allowance never beyond what was asked")
-	verifrt.Assert(st.committedTxID == f.c, "synced mode: committing is left to the syncer")
+	verifrt.Assert(st.committedTxID == f.c && len(f.cLog.ops) == 0 && len(f.doneUpto) == 0, "synced mode: committing (commit-log write, fsync, signalling) is left to the syncer")
 }
 
 // VerifH_PrecommitBufferStep: one operation from an ARBITRARY valid ring state (any capacity
